@@ -178,10 +178,11 @@ TEXT = {
   "level": "Theorems C14_fresh / C14_owns (static provenance of the decoder IR: every byte-slice field any decoder stores is allocated during the call, so "
            "accessors do not depend on later writes to the input; the pre-repair Undefined decoder is rejected by the same check) and "
            "C14_history_independent (a frame's decoding does not depend on earlier reads), C14_no_global_state (static analysis of the source: no function of the package writes a "
-           "package-level variable, uses a pool or a cache). Heap aliasing between Go packets is observed by the scribble "
+           "package-level variable, uses a pool or a cache), C14_decoders_copy (retention analysis of the source, every path: none of the 25 UnmarshalBinary methods leaves "
+           "its receiver holding a reference into the data argument, and what ReadPacket returns does not reach into the reader). Heap aliasing between Go packets is observed by the scribble "
            "and pool oracles, not proved; provenance annotations of the primitives are hand-written.",
   "note": NOTE,
-  "technique": "Coq proof (provenance analysis of the decoder IR) + scribble/pool aliasing oracle + correspondence",
+  "technique": "Coq proof (provenance analysis of the decoder IR) + static retention/write-set analysis of the source as checked obligations + scribble/pool aliasing oracle + correspondence",
  },
 }
 NOT_APPLICABLE = {}
